@@ -15,6 +15,7 @@
     C09_neg                       unary minus flips the sign of numbers and fixes zero and NaN
     C09_nan_propagates_mul/div, C09_zero_absorbing_mul, C09_sign_product_sat   readable corollaries
     C09_blocktype_independent_*   the result does not depend on the block width (u8/u16/u32/… all agree)
+    C09_addsub_spec_sound         the interval evaluation behind the add/sub spec predicate is sound w.r.t. the exact real sum
     C09_log_rounding_is_rne, C09_log_scaled_value   add/sub: on the main path convert_ieee754 writes rne(2^rbits·|log2 v|) of
                                   the OBSERVED logarithm (guard/round/sticky = round-half-even; the scaled quotient is exact)
   Stated, not proved
@@ -31,6 +32,7 @@ import UVerifProofs.Lemmas.LnsBlocks
 import UVerifProofs.Lemmas.LnsOps
 import UVerifProofs.Lemmas.LnsRound
 import UVerifProofs.Lemmas.ArealVal
+import UVerifProofs.Lemmas.LnsMagSound
 
 set_option linter.unusedSimpArgs false
 set_option linter.unusedVariables false
@@ -342,6 +344,20 @@ theorem C09_log_scaled_value (logv rbits : Nat) (hue : 1 ≤ IeeeBits.expOf Ieee
           (pow2 ((IeeeBits.expOf IeeeBits.f64 logv : Int) - 1075) * ((2 ^ sr : Nat) : Rat) * ((2 ^ rbits : Nat) : Rat)) := by
         rw [hp, mul_one]
     _ = _ := by ring
+
+/-- add/sub, the spec side: the certified interval evaluation that the driver's predicate `addSubOk` rests on is SOUND.
+    In any linearly ordered field that contains u = 2^(1/2^rbits) (u > 0, u^(2^rbits) = 2) the answer of `magOf` locates the
+    exact real magnitude u^Ea + u^Eb resp. |u^Ea - u^Eb| on the lattice {u^G}: `.zero` ⇒ it is 0, `.at G` ⇒ it is u^G,
+    `.between G` ⇒ u^G ≤ it < u^(G+1).  (So a transcript line is never judged against a wrong bracket; `.undecided` is
+    reported as a failure, never accepted.) -/
+theorem C09_addsub_spec_sound {α : Type*} [Field α] [LinearOrder α] [IsStrictOrderedRing α]
+    (u : α) (hu : 0 < u) (rbits : Nat) (hur : u ^ (2 ^ rbits) = 2) (Ea Eb : Int) (sub : Bool) :
+    match magOf rbits Ea Eb sub with
+    | .zero => LnsSound.realMag u Ea Eb sub = 0
+    | .at G => LnsSound.realMag u Ea Eb sub = u ^ G
+    | .between G => u ^ G ≤ LnsSound.realMag u Ea Eb sub ∧ LnsSound.realMag u Ea Eb sub < u ^ (G + 1)
+    | .undecided => True :=
+  LnsSound.magOf_sound u hu rbits hur Ea Eb sub
 
 /-- the add/sub clause as the property states it (decided per line by the driver, not proved): for the observed libm values
     of the transcript line the model's result is adjacent to the exact real sum. -/
